@@ -23,7 +23,9 @@ BENIGN_PROPS = {"cache": ["C19"], "ident": ["C18"], "mdstore": ["C16"], "request
                 "nameid": ["C18"], "mdquery": ["C16"],
                 "cache2": ["C19"], "mdload": ["C16"], "soap": ["C10", "C03", "C15", "C08"], "ecpolicy": ["C08", "C17"],
                 "validate": ["C05", "C10", "C04", "C17"], "producer": ["C08", "C17", "C20", "C02"], "ident2": ["C18"],
-                "client": ["C02", "C05", "C08", "C04"]}
+                "client": ["C02", "C05", "C08", "C04"],
+                "sutils": ["C18", "C10", "C04", "C19", "C15"], "config2": ["C02", "C05", "C10", "C16"],
+                "parse2": ["C17", "C20", "C02", "C05"], "convert": ["C08", "C17"]}
 
 
 def run_check(prop, src, out):
